@@ -70,8 +70,6 @@ def handle (cmd : String) (j : J) : Except String J :=
     | "new" => pure (exJ10 pairJ (seqRoundtripNew parent v))
     | "view_copy_new" => pure (exJ10 pairJ (viewCopyNew parent v))
     | "copy_new" => pure (exJ10 pairJ (seqCopyNew parent v))
-    | "view_copy_new_fixed" => pure (exJ10 pairJ (viewCopyNewRepaired parent v))
-    | "copy_new_fixed" => pure (exJ10 pairJ (seqCopyNewRepaired parent v))
     | "dataview" => pure (exJ10 pairJ (seqRoundtripDataView parent v))
     | p => throw s!"bad path {p}"
   | "coerce" => do
@@ -92,9 +90,9 @@ def handle (cmd : String) (j : J) : Except String J :=
   | "fmap" => do
     let spans ← (← j.get "spans").toListOf parseSpan
     let m : RichDict.FeatureMap := { spans := spans, parentLength := ← (← j.get "parent_length").toInt }
-    let b := RichDict.FeatureMap.construct m
-    pure (J.obj [("built", fstateJ b.state), ("json", fstateJ b.roundtripJson.state),
-                 ("pickle", fstateJ b.state.roundtripPickle)])
+    let b := RichDict.FeatureMap.build m
+    pure (J.obj [("built", fstateJ b), ("json", fstateJ b.roundtripJson),
+                 ("pickle", fstateJ b.roundtripPickle)])
   | "fstate" => do
     -- a LIVE map state (spans as they are now, e.g. after zeroed()) through the current JSON route
     let spans ← (← j.get "spans").toListOf parseSpan
@@ -104,7 +102,7 @@ def handle (cmd : String) (j : J) : Except String J :=
       | .lost l => SpanState.lost l
     let st : FeatureState := { spans := live, parentLength := ← (← j.get "parent_length").toInt,
                                length := ← (← j.get "length").toInt }
-    pure (J.obj [("json_live", fstateJ st.roundtripJsonLive), ("pickle", fstateJ st.roundtripPickle)])
+    pure (J.obj [("json_live", fstateJ st.roundtripJson), ("pickle", fstateJ st.roundtripPickle)])
   | _ => throw s!"unknown command {cmd}"
 
 def main : IO Unit := driverLoop handle
